@@ -103,7 +103,7 @@ class Gen(object):
             r['type'] = 'list'
             self.list_rules(r, depth, validation_only=validation_only)
             if 'schema' not in r and 'items' not in r and self.chance(0.3):
-                r['type'] = self.pick([['list', 'string'], 'container', ['list', 'dict']])
+                r['type'] = ['list', 'string']
         elif kind == 'dict':
             r['type'] = 'dict'
             self.dict_rules(r, depth, siblings, validation_only=validation_only)
